@@ -246,7 +246,8 @@ static std::string stepLine(State& s, const std::vector<std::string>& w)
         if (w[2] == "restart" && w.size() == 3) { slot.enc.restart(); return "ok"; }
         if (w[2] == "seq" && w.size() == 3) return "seq " + std::to_string(slot.enc.getSequenceCounter());
         if (w[2] == "ids" && w.size() == 3) return "ids " + std::to_string(slot.enc.getDeviceId()) + " " + std::to_string(unsigned(slot.enc.getStreamId()));
-        if ((w[2] == "encode" || w[2] == "encodep" || w[2] == "encode1") && w.size() >= 5)
+        // `encodell`: the same call on the real encoder; the driver answers it with the low-level model (EncoderLL.lean)
+        if ((w[2] == "encode" || w[2] == "encodep" || w[2] == "encode1" || w[2] == "encodell") && w.size() >= 5)
         {
             DataContext ctx{static_cast<size_t>(nat(w[3])), static_cast<size_t>(nat(w[4]))};
             if (!(ctx.maxBytesPerMessage >= 25 && ctx.minBytesPerMessage <= ctx.maxBytesPerMessage)) return "bad-ctx";
